@@ -415,6 +415,9 @@ func ringScale(n int, fullRegrow, lastDrain bool, obsMax int) string {
 	}
 	add("R%d,1000", n)
 	obs(1, n)
+	if n > obsMax { // the far ends of the full ring, once in each direction
+		add("T1,%d+%d", n-1, -(n - 1))
+	}
 	if n >= 4 { // split far apart: [1, h+1 … n] stays, [2 … h] is returned; then join the two rings again
 		h := n/2 + 1
 		add("J1,%d", h)
@@ -485,7 +488,7 @@ func ringScale(n int, fullRegrow, lastDrain bool, obsMax int) string {
 }
 
 func main() {
-	tr.Main("C10_ring: Join of every ordered pair of elements of one ring (every distance, equal, adjacent) and of two different rings, ring sizes 1..8 (quick) / 1..10 (thorough), with a snapshot before and after; Pop of every element (rings of one and of two elements tagged), put back with the popped element as argument and as receiver; New for n = -2..9, for n <= 0 down to math.MinInt64 and for one ring of a few hundred elements; Of without values; nil receivers and arguments; Each stopped at every call; At/Peek at every offset -(len+1)..(len+1) and far beyond, up to math.MaxInt64 and down to math.MinInt64; random histories of Join/Pop/New/Of over several rings with a snapshot after every mutation.  A snapshot walks Next and Prev c+1 steps from every element ever handed out and records Len, Each, At and Peek at all offsets.  A case is non-trivial when it contains a Join or a Pop; distinct = distinct histories.",
+	tr.Main("C10_ring: Join of every ordered pair of elements of one ring (every distance, equal, adjacent) and of two different rings, ring sizes 1..8 (quick) / 1..10 (thorough), with a snapshot before and after; Pop of every element (rings of one and of two elements tagged), put back with the popped element as argument and as receiver; New for n = -2..9, for n <= 0 down to math.MinInt64 and for one ring of a few hundred elements; Of without values; nil receivers and arguments; Each stopped at every call; At/Peek at every offset -(len+1)..(len+1) and far beyond, up to math.MaxInt64 and down to math.MinInt64; random histories of Join/Pop/New/Of over several rings with a snapshot after every mutation.  Scale stream (every tier): one ring of 2^k-1, 2^k, 2^k+1 elements (k<=10, then one size each at 2^11 and 2^12 in the quick tier; all sizes to 2^11 and one each at 2^12 and 2^13 thorough) and a few random sizes: split into two big rings by a Join of two far-apart elements, rejoined by a Join of the two rings, drained by single Pops of the successors / predecessors of the handle to 1/2, 1/4, 1/8, 1/16 and to one element, Pop on the ring of one, regrown by Joins of the popped singletons and drained again; after every phase Len, Each, a full walk in both directions (digests above 200 items) and At/Peek at the ends, the middle and beyond in both directions.  A snapshot walks Next and Prev c+1 steps from every element ever handed out and records Len, Each, At and Peek at all offsets.  A case is non-trivial when it contains a Join or a Pop; distinct = distinct histories.",
 		exec, func(g *tr.G) {
 			maxN := g.Scale(8, 10)
 			// nil receivers / arguments, empty rings
@@ -563,7 +566,7 @@ func main() {
 			// replays one Pop, Join or step of a walk in time linear in the number of elements ever
 			// made, so above 2^allK the rings are observed in full only once drained below obsMax,
 			// regrown by an eighth and not drained a second time.
-			allK, kmax, obsMax := g.Scale(10, 12), g.Scale(12, 13), g.Scale(1100, 4200)
+			allK, kmax, obsMax := g.Scale(10, 11), g.Scale(12, 13), g.Scale(1100, 2100)
 			seen := map[int]bool{}
 			var sizes []int
 			for k := 1; k <= allK; k++ {
@@ -577,8 +580,8 @@ func main() {
 			for k := allK + 1; k <= kmax; k++ {
 				sizes = append(sizes, 1<<k+1-(k-allK-1)%3)
 			}
-			for i := 0; i < g.Scale(2, 8); i++ {
-				sizes = append(sizes, g.R.Range(300, g.Scale(900, 4000)))
+			for i := 0; i < g.Scale(2, 6); i++ {
+				sizes = append(sizes, g.R.Range(300, g.Scale(600, 2000)))
 			}
 			for _, n := range sizes {
 				small := n <= 1<<allK+1
